@@ -82,7 +82,7 @@ def playInner : Stmt :=
 
 /-- What `Layout`'s loops keep: the machine represents the loop state `st` of the model. -/
 def MInv (φ : List (String × Int)) (win : Win) (rows : List SimpleList.Row) (width : Int) (st : LState) (m : M) : Prop :=
-  m.φ = φ ∧ m.lines = st.lines ∧ m.lv = "v0" ∧ m.cur = st.cur ∧ m.shared = false ∧ m.win = win ∧ m.rows = rows ∧
+  m.φ = φ ∧ m.lines = st.lines ∧ m.lv = "v0" ∧ m.cur = st.cur ∧ m.alias = [] ∧ m.win = win ∧ m.rows = rows ∧
   lookup (m.ρ ++ φ ++ consts) "d.width" = some width ∧ lookup (m.ρ ++ φ ++ consts) "v1" = some st.col
 
 def RInv (φ : List (String × Int)) (win : Win) (rows : List SimpleList.Row) (width : Int) (st : LState) : Res → Prop
@@ -186,7 +186,7 @@ theorem play_exec (R : Ro) (f : Nat) (m : M) (width : Int) (hρ : m.ρ = [])
   obtain ⟨φ, ρ, χ, ls, L, lv, C, sh, win, rows⟩ := m
   simp only at hρ hw
   subst hρ
-  have h0 : MInv φ win rows width ⟨[], [], 0⟩ ⟨φ, [("v1", 0)], χ, ls, [], "v0", [], false, win, rows⟩ := by
+  have h0 : MInv φ win rows width ⟨[], [], 0⟩ ⟨φ, [("v1", 0)], χ, ls, [], "v0", [], [], win, rows⟩ := by
     refine ⟨rfl, rfl, rfl, rfl, rfl, rfl, rfl, ?_, ?_⟩
     · simpa [lookup] using hw
     · simp [lookup]
@@ -194,7 +194,7 @@ theorem play_exec (R : Ro) (f : Nat) (m : M) (width : Int) (hρ : m.ρ = [])
   simp only [seqOf, playParts, exec, play3_run]
   simp [play0, play1, play2, exec, atom, WidExec.ok, evI, WidExec.bind]
   revert hl
-  generalize hr : rangeE "_" "v2" (exec R playOuter f) (R.segs.map Elem.seg) 0 ⟨φ, [("v1", 0)], χ, ls, [], "v0", [], false, win, rows⟩ = r
+  generalize hr : rangeE "_" "v2" (exec R playOuter f) (R.segs.map Elem.seg) 0 ⟨φ, [("v1", 0)], χ, ls, [], "v0", [], [], win, rows⟩ = r
   intro hl
   have fin : ∀ m' : M, MInv φ win rows width (layoutLoop width ⟨[], [], 0⟩ R.segs.flatten) m' →
       LayRes ⟨φ, [], χ, ls, L, lv, C, sh, win, rows⟩ (Pager.layout true width R.segs.flatten)
@@ -512,7 +512,7 @@ theorem pdraw_rest (R : Ro) (f : Nat) (φ : List (String × Int)) (χ : List (St
     (hg : lookupC χ "d.Fill.Grapheme" = some g) (hdf : lookupC χ "defaultFill" = some fillCh) :
     DrawOK lines (Pager.clampOffset lines.length off h) wd (paint (Pager.clampOffset lines.length off h) h (blank w h) 0 lines)
       (exec R (seqOf [pdraw2, pdraw3, pdraw4, pdraw5, pdraw6]) f
-        ⟨φ, [("v2", (h : Int)), ("v1", (w : Int))], χ, [], lines, "", [], false, win0, []⟩) := by
+        ⟨φ, [("v2", (h : Int)), ("v1", (w : Int))], χ, [], lines, "", [], [], win0, []⟩) := by
   have ho' := lookup_append_some φ consts _ _ ho
   simp only [consts] at ho'
   by_cases c1 : (lines.length : Int) - off < (h : Int)
@@ -587,7 +587,7 @@ theorem pdraw_key (segs : List (List Ch)) (s : Pager.St) (w h : Nat) (fe : Bool)
     rw [hr]
     have hl := play_exec ⟨0, 0, segs, noCall⟩ 0
       ⟨[("d.width", (w : Int)), ("d.Offset", offset), ("d.width", width)], [],
-       [("d.Fill.Grapheme", if fe = true then ⟨[], 0⟩ else fillCh), ("defaultFill", fillCh)], [], lines, "", [], false, blank w h, []⟩
+       [("d.Fill.Grapheme", if fe = true then ⟨[], 0⟩ else fillCh), ("defaultFill", fillCh)], [], lines, "", [], [], blank w h, []⟩
       (w : Int) rfl (by simp [lookup])
     simp only [exec, pdraw0, pdraw1, atom, evB, evI, look, WidExec.bind, WidExec.ok, pagerM, pagerRo, m0, consts]
     simp [lookup, lookupC, hw, store, fn_width, layoutCallee, expB]
@@ -595,7 +595,7 @@ theorem pdraw_key (segs : List (List Ch)) (s : Pager.St) (w h : Nat) (fe : Bool)
     simp only [ht]
     generalize exec ⟨0, 0, segs, noCall⟩ (seqOf playParts) 0
       ⟨[("d.width", (w : Int)), ("d.Offset", offset), ("d.width", width)], [],
-       [("d.Fill.Grapheme", if fe = true then ⟨[], 0⟩ else fillCh), ("defaultFill", fillCh)], [], lines, "", [], false, blank w h, []⟩ = r
+       [("d.Fill.Grapheme", if fe = true then ⟨[], 0⟩ else fillCh), ("defaultFill", fillCh)], [], lines, "", [], [], blank w h, []⟩ = r
     intro hl
     match r, hl with
     | .error _, hf => exact hf.elim
